@@ -385,3 +385,46 @@ func vsS24() {
 	e.refresh <- nil
 	e.vFinish("S24", b)
 }
+
+// ---- S25: a render error while other bars are in the middle of the width exchange of a later column (C15, C01,
+// C16): the failing bar has one synchronised decorator and is popped first; the two other bars have two each.
+// The error is reported once, every bar is cancelled, Wait returns, nobody stays parked in WC.Format.
+func vsS25() {
+	mode := vModeParam()
+	dbg := &vFrameRec{}
+	e := vNewContainer(mode, -1, WithDebugOutput(dbg))
+	mf := vNewMark(0)
+	mf.rec = e.rec
+	mf.failAt = vParam("failAtFill")
+	a0 := vNewSync(vMakeText(1, 0))
+	b0, b1 := vNewSync(vMakeText(2, 0)), vNewSync(vMakeText(1, 0))
+	c0, c1 := vNewSync(vMakeText(3, 0)), vNewSync(vMakeText(2, 0))
+	ba, _ := e.p.Add(4, mf, BarFillerTrim(), BarPriority(10), PrependDecorators(a0))
+	bb, _ := e.p.Add(4, vNewMark(1), BarFillerTrim(), PrependDecorators(b0, b1))
+	bc, _ := e.p.Add(4, vNewMark(2), BarFillerTrim(), PrependDecorators(c0, c1))
+	if mode == vManual {
+		stopped := make(<-chan struct{})
+		if ba != nil {
+			stopped = vBarDone(ba)
+		}
+		for i := 0; i < 3; i++ {
+			select {
+			case e.refresh <- nil:
+			case <-stopped:
+			}
+		}
+		e.cancel()
+	}
+	e.p.Wait()
+	e.rec.closed = true
+	for _, b := range []*Bar{ba, bb, bc} {
+		vAssert(b == nil || !b.IsRunning(), "S25.all-bars-cancelled")
+	}
+	if mf.fills >= mf.failAt {
+		vAssert(dbg.n == 1, "S25.error-reported-to-debug-output-exactly-once")
+		vAssert(e.rec.n == mf.framesAtFail, "S25.no-frame-in-or-after-the-failing-cycle")
+	}
+	<-e.notify
+	vAssert(e.rec.late == 0, "S25.nothing-written-after-Wait")
+	vCover("S25.waited")
+}
